@@ -248,6 +248,12 @@ def case(args):
                     elif same_as_pre and not same_as_post and isinstance(st, int) and st < 400:
                         vio.append(('c17:%s:%s:success-without-effect' % (kind, op['op']),
                                     'fault %s at statement %d: answered %s but nothing was applied' % (kind, k, st)))
+                    if kind == 'duplicate' and cls is None and not (same_as_post and st == r0.status):
+                        # the property promises a RETRY here: a duplicate-key race while an aggregate is first recorded
+                        # must end in the fault-free result, not in a clean failure
+                        vio.append(('c17:duplicate:%s:aggregate-race-not-retried' % op['op'],
+                                    'duplicate key at statement %d (%s %s): answered %s (fault-free: %s), effect %s' % (
+                                        k, ev[1], ev[2], st, r0.status, 'applied' if same_as_post else 'not applied')))
                     if not wf:
                         vio.append(('c17:%s:%s:malformed-error-response' % (kind, op['op']), 'status %s body %s' % (st, str(r.json)[:200] if r else '')))
                     oc = 'post' if same_as_post else ('pre' if same_as_pre else 'other')
